@@ -143,6 +143,11 @@ func checkChildCompile(prop string) func(json.RawMessage) (ev.Result, error) {
 				return res, fmt.Errorf("policy %d compiled by %s: %v", i, where, err)
 			}
 			events += len(evs)
+			if prop == "C05" {
+				if err := cbpf.Verify(child); err != nil {
+					return res, fmt.Errorf("policy %d compiled by %s: the program is no valid seccomp filter: %v", i, where, err)
+				}
+			}
 			if len(child) != len(cp.raw) {
 				return res, fmt.Errorf("policy %d: %d instructions here, %d in %s", i, len(cp.raw), len(child), where)
 			}
@@ -194,6 +199,33 @@ func childCorpusC02(seed uint64) []spec.Policy {
 					Conds: []spec.CondEntry{{Name: c02Syscall, Conds: []spec.Cond{{Arg: arg, Op: op, Val: v}}}}}}})
 			}
 		}
+	}
+	return out
+}
+
+// corpus for C05/C07: valid policies and policies with one defect each, in particular argument indices whose validity
+// a 32-bit build could judge differently (int conversions, wrapped offsets)
+func childCorpusDefects(seed uint64) []spec.Policy {
+	var out []spec.Policy
+	idx := []uint32{0, 5, 6, 7, 8, 255, 65536, 0x0fffffff, 0x10000000, 0x1fffffff, 0x20000000, 0x20000003, 0x20000005, 0x20000006, 0x40000000, 0x40000003,
+		0x7fffffff, 0x80000000, 0x80000005, 0x80000006, 0x80000007, 0xa0000000, 0xe0000001, 0xfffffffe, 0xffffffff}
+	acts := oracle.ActionList()
+	for k, a := range []string{"x86_64", "i386", "arm", "aarch64"} {
+		for j, ix := range idx {
+			op := spec.Ops[(j+k)%len(spec.Ops)]
+			out = append(out, spec.Policy{Arch: a, Default: acts[(j+k)%7], Groups: []spec.Group{{Action: acts[(j+k+3)%7], Names: []string{"read"},
+				Conds: []spec.CondEntry{{Name: "write", Conds: []spec.Cond{{Arg: uint32(j % 6), Op: "Equal", Val: 1}, {Arg: ix, Op: op, Val: gen.Mix(seed, uint64(j*4+k))}}}}}}})
+		}
+		u := gen.Universe(a)
+		out = append(out,
+			spec.Policy{Arch: a, Default: 0x12345678, Groups: []spec.Group{{Action: acts[0], Names: []string{"read"}}}},
+			spec.Policy{Arch: a, Default: acts[6]},
+			spec.Policy{Arch: a, Default: acts[6], Groups: []spec.Group{{Action: acts[3], Names: []string{"read", "no_such_syscall"}}}},
+			spec.Policy{Arch: a, Default: acts[6], Groups: []spec.Group{{Action: acts[3], Names: []string{"read", "write", "read"}}}},
+			spec.Policy{Arch: a, Default: acts[6], Groups: []spec.Group{{Action: acts[3], Names: []string{"read"}, Conds: []spec.CondEntry{{Name: "read", Conds: []spec.Cond{{Arg: 0, Op: "Equal", Val: 1}}}}}}},
+			spec.Policy{Arch: a, Default: acts[6], Groups: []spec.Group{{Action: acts[3], Conds: []spec.CondEntry{{Name: "read", Conds: []spec.Cond{{Arg: 0, Op: "Approximately", Val: 1}}}}}}},
+			spec.Policy{Arch: a, Default: acts[1], Groups: []spec.Group{{Action: acts[6], Names: gen.Subset(u, seed+uint64(k), 300)}, {Action: acts[3], Names: gen.Subset(u, seed+uint64(k)+9, 200)}}},
+		)
 	}
 	return out
 }
@@ -311,6 +343,30 @@ func TestC14OtherProcesses(t *testing.T) {
 	ev.Register("C14", "parse-other-process", checkC14Child)
 	for _, cfg := range childConfigs {
 		if !ev.CheckOne(t, "C14", "parse-other-process", c14ChildCase{GOARCH: cfg.goarch, Outer: cfg.outer}, checkC14Child) {
+			return
+		}
+	}
+}
+
+func TestC05OtherProcesses(t *testing.T) {
+	check := checkChildCompile("C05")
+	ev.Register("C05", "other-process", check)
+	seed := shardSeed()
+	for k, cfg := range childConfigs {
+		corpus := append(childCorpusDefects(seed+uint64(k)), childCorpusC01(ev.Scale(20, 200), int(seed%100000)+2000*k)...)
+		if !ev.CheckOne(t, "C05", "other-process", childCompileCase{GOARCH: cfg.goarch, Outer: cfg.outer, Corpus: corpus, Seed: seed}, check) {
+			return
+		}
+	}
+}
+
+func TestC07OtherProcesses(t *testing.T) {
+	check := checkChildCompile("C07")
+	ev.Register("C07", "other-process", check)
+	seed := shardSeed()
+	for k, cfg := range childConfigs {
+		corpus := childCorpusDefects(seed + uint64(10*k))
+		if !ev.CheckOne(t, "C07", "other-process", childCompileCase{GOARCH: cfg.goarch, Outer: cfg.outer, Corpus: corpus, Seed: seed}, check) {
 			return
 		}
 	}
